@@ -26,7 +26,7 @@ func init() {
 			if tier == "quick" {
 				return 960
 			}
-			return 4800
+			return 14400
 		},
 		Run:      runC01,
 		Required: []string{"op.add_node.ok", "op.add_link.ok", "op.mate_multipoint.ok", "op.mate_multipoint_avg.ok", "op.mate_singlepoint.ok", "epochs"},
